@@ -12,7 +12,16 @@ EXTENDS Naturals, Sequences, FiniteSets, TLC, Json
 CONSTANTS MaxEdits, ShapeNames, Emit
 
 ShapeDef ==
-  [ p1   |-> [nbPub |-> 1, nbCommit |-> 0],
+  [
+    p1x0 |-> [nbPub |-> 1, nbCommit |-> 0],
+    p1x1 |-> [nbPub |-> 1, nbCommit |-> 0],
+    p1x2 |-> [nbPub |-> 1, nbCommit |-> 0],
+    p1x3 |-> [nbPub |-> 1, nbCommit |-> 0],
+    p1x4 |-> [nbPub |-> 1, nbCommit |-> 0],
+    p1x5 |-> [nbPub |-> 1, nbCommit |-> 0],
+    p1x6 |-> [nbPub |-> 1, nbCommit |-> 0],
+    p1x7 |-> [nbPub |-> 1, nbCommit |-> 0],
+    p1   |-> [nbPub |-> 1, nbCommit |-> 0],
     p2u  |-> [nbPub |-> 2, nbCommit |-> 0],
     c1s  |-> [nbPub |-> 1, nbCommit |-> 1],
     c1p  |-> [nbPub |-> 2, nbCommit |-> 1],
@@ -26,7 +35,9 @@ ShapeDef ==
 G1Comps == {"L", "R", "O", "Z", "H0", "H1", "H2", "BatchH", "ZShiftH"}
 \* components bound into the Fiat-Shamir transcript (altering one changes every later challenge)
 Transcripted == {"L", "R", "O", "Z", "H0", "H1", "H2"}
-G1Classes == {"other", "inf", "neg", "rand", "vkel", "offsub"}
+\* "torsion": genuine element plus a cofactor-torsion point (see Groth16Protocol)
+G1Classes == {"other", "inf", "neg", "rand", "vkel", "offsub", "torsion"}
+Off(t) == t \in {"offsub", "torsion"}
 ScalarClasses == {"inc", "zero", "other"}
 
 VARIABLES shape, edits,
@@ -159,7 +170,7 @@ RoundTrip(c) ==
 
 BsbInPlace == Len(bsb) = S.nbCommit /\ \A i \in 1..Len(bsb) : bsb[i] = [src |-> "own", idx |-> i]
 CvGenuine == Len(cv) = 6 + S.nbCommit /\ \A k \in 1..Len(cv) : cv[k] = "gen"
-AnyOffsub == (\E c \in G1Comps : g1[c] = "offsub") \/ (\E i \in 1..Len(bsb) : bsb[i].src = "offsub")
+AnyOffsub == (\E c \in G1Comps : Off(g1[c])) \/ (\E i \in 1..Len(bsb) : Off(bsb[i].src))
 
 \* PLONK binds every public input through its placeholder row, used or not.
 PubGenuine == Len(pub) = S.nbPub /\ \A i \in 1..Len(pub) : pub[i] = "orig"
